@@ -11,7 +11,7 @@ from fparser.two.utils import walk, Base
 from fparser.two import C99Preprocessor as CPP
 
 # (kind, text builder from a 3-char symbolic identifier `x`, expected printed form)
-KINDS = ["if", "ifdef", "ifndef", "elif", "else", "endif", "include", "define", "define_fn", "undef", "line", "marker", "error", "warning", "null", "cont"]
+KINDS = ["if", "ifdef", "ifndef", "elif", "else", "endif", "include", "define", "define_fn", "undef", "line", "marker", "error", "warning", "null", "cont", "cont3"]
 
 
 def directive(kind, x):
@@ -47,6 +47,8 @@ def directive(kind, x):
         return "#", "#"
     if kind == "cont":
         return "#define " + x + " 1 + \\\n   2", None
+    if kind == "cont3":
+        return "#define " + x + " 1 + \\\n   2 + \\\n   3", None
     raise ValueError(kind)
 
 
